@@ -28,7 +28,7 @@ from .core import NPROC, _size
 ASSUMPTIONS = [
     "TLC explores the quiescent-state model (spec/MCCore.tla); crash/resume points are exactly its reachable states",
     "pending timers and in-flight services are excepted by the property and absent from these families",
-    "child actors are covered by the C15 check's snapshot leg, not here",
+    "child actors: the reachable states of the actor model (SCActors.tla) with live children are snapshotted, restored and continued on the asyncio engine (actor tree, system registry, re-snapshot, receptions); pending delayed sends are excepted by the property",
     "corruption cases are single-point (one field replaced / removed), enumerated by spec/SnapCases.tla",
 ]
 
@@ -332,6 +332,78 @@ def families(tier: str, seed: int) -> List[gen.Spec]:
             + gen.family_R(seed + 3, 8 if q else 150))
 
 
+ACTOR_CONTS = ["ST_a1_X", "ST_s1_Y", "ST_sg_X", "ST_a1_GST", "ST_w_X", "ST_a1_PING", "SC_a1", "stop"]
+
+
+def actor_snapshot_chunk(args: dict) -> dict:
+    from .. import actors
+    out = {"paths": 0, "bad": []}
+    for steps in args["paths"]:
+        out["paths"] += 1
+        for b in actors.snapshot_leg([{"op": s} for s in steps], ACTOR_CONTS):
+            out["bad"].append({"steps": steps, **b})
+    return out
+
+
+def actor_snapshot_leg(tier: str, seed: int):
+    """Resume points with LIVE CHILD ACTORS: the reachable states of the actor model (spec/SCActors.tla, TLC) in which
+    the root has children; each is snapshotted on the real engine, restored, and compared (actor tree, re-snapshot,
+    continuations) - see harness/actors.snapshot_leg."""
+    import random
+    from collections import deque
+    from .. import actors
+    q = tier == "quick"
+    wd = tla.scratch_dir("verif-c12a-")
+    viols, errs = [], []
+    cov = {"actor_resume_points": 0, "actor_model_states": 0}
+    try:
+        ops = [o for o in actors.OPS if o["name"] in ("SP_w", "SP_w_a1", "SP_w_a2_s1", "SP_v_s1", "ST_a1_GSP", "ST_a1_FIN", "ST_a1_X", "SC_a1")]
+        edges, stats, e2, rc, _w = actors.model_check(os.path.join(wd, "mc"), ops, 4 if q else 5, 5, workers=6)
+        if rc != 0 or e2:
+            errs.append(f"TLC (actor model for snapshots) rc={rc} " + "; ".join(e2[:2]))
+        cov["actor_model_states"] = stats[1]
+        key = lambda s: json.dumps(s, sort_keys=True)
+        succ: Dict[str, list] = {}
+        for e in edges:
+            succ.setdefault(key(e["from"]), []).append(e)
+        inits = [e["from"] for e in edges if e["from"]["rec"] == {} and e["from"]["alive"] == ["m"]]
+        paths: Dict[str, list] = {}
+        if inits:
+            k0 = key(inits[0])
+            paths[k0] = []
+            dq = deque([k0])
+            while dq:
+                k = dq.popleft()
+                for e in succ.get(k, []):
+                    k2 = key(e["to"])
+                    if k2 not in paths:
+                        paths[k2] = paths[k] + [e["step"].get("name", e["step"]["op"])]
+                        dq.append(k2)
+        states = {key(e["to"]): e["to"] for e in edges}
+        cands = sorted(p for k, p in paths.items() if k in states and len(states[k]["alive"]) + len(states[k].get("fin") or []) >= 2
+                       and not any(x in ("stop",) for x in p))
+        rng = random.Random(seed)
+        rng.shuffle(cands)
+        cands = cands[: (40 if q else 400)]
+        chunks = [cands[i::NPROC] for i in range(NPROC)]
+        import concurrent.futures as cf
+        with cf.ProcessPoolExecutor(max_workers=NPROC) as ex:
+            results = list(ex.map(actor_snapshot_chunk, [{"paths": c} for c in chunks if c]))
+        dummy = pipeline.Built(gen.Spec({"id": "m", "initial": "s", "states": {"s": {}}}, "actors", "actor-driver"))
+        for r in results:
+            cov["actor_resume_points"] += r["paths"]
+            for b in r["bad"]:
+                steps = [{"op": s, "ev": "", "gv": {}} for s in b["steps"]] + ([{"op": b["cont"], "ev": "", "gv": {}}] if b["cont"] else [])
+                viols.append(core_check._viol("C12", ["actors:" + b["clause"]], "async", dummy, steps, [], "actor-snapshot",
+                                              {"original": b["original"], "restored": b["restored"]}))
+    except Exception:
+        import traceback
+        errs.append("actor snapshot leg failed: " + traceback.format_exc().splitlines()[-1])
+    finally:
+        tla.rm(wd)
+    return cov, viols, errs
+
+
 def run(prop: str, tier: str, seed: int) -> int:
     t0 = time.time()
     q = tier == "quick"
@@ -371,6 +443,10 @@ def run(prop: str, tier: str, seed: int) -> int:
         exhaustive = exhaustive and r["exhaustive"]
         if len(cov["samples"]) < 3:
             cov["samples"] += r["samples"]
+    acov, aviol, aerr = actor_snapshot_leg(tier, seed)
+    cov.update(acov)
+    violations += aviol
+    errors += aerr
     if ncases == 0:
         errors.append("SnapCases produced no cases: " + "; ".join(cres.errors[:2]))
     cov["traces_validated_against_impl"] = cov["resume_points_x_continuations"] + ncorr
